@@ -78,6 +78,7 @@ int scon_stk_ptr;
 static int madeany = false;  /* whether we've made the '.' character class */
 static int ccldot, cclany;
 int previous_continued_action;	/* whether the previous rule's action was '|' */
+extern bool action_kind_unknown;
 
 #define format_warn3(fmt, a1, a2) \
 	do{ \
@@ -252,6 +253,7 @@ initforrule	:
 			trailcnt = headcnt = rulelen = 0;
 			current_state_type = STATE_NORMAL;
 			previous_continued_action = continued_action;
+			action_kind_unknown = false;
 			in_rule = true;
 
 			new_rule();
@@ -465,6 +467,7 @@ rule		:  re2 re
 
 		|  re '$'
 			{
+			action_kind_unknown = true;
 			headcnt = 0;
 			trailcnt = 1;
 			rulelen = 1;
